@@ -75,7 +75,7 @@ fn enc<F: FnOnce(&mut W)>(f: F) -> Vec<u8> {
 pub fn run(ctx: &mut Ctx) {
     ctx.floor("rt.parse_dh_params", 2_000);
     ctx.floor("rt.parse_ec_parameters", 65536);
-    ctx.floor("rt.parse_ecdh_params", 2_000);
+    ctx.floor("rt.parse_ecdh_params", 65536);
     ctx.floor("rt.ECPoint::parse", 500);
     ctx.floor("rt.parse_digitally_signed", 65536);
     ctx.floor("rt.parse_digitally_signed_old", 1_000);
@@ -106,6 +106,18 @@ pub fn run(ctx: &mut Ctx) {
         for g in (idx * 1024)..((idx + 1) * 1024) {
             let v = AEcParams::Named(g as u16);
             rt!(ctx, "parse_ec_parameters", enc(|w| v.enc(w)), &[0xEEu8, g as u8][..], parse_ec_parameters, v.expected(), 0u8);
+            // the same group inside ServerECDHParams and under parse_content_and_signature
+            let e = AEcdh { params: AEcParams::Named(g as u16), public: vec![4, g as u8, (g >> 8) as u8] };
+            rt!(ctx, "parse_ecdh_params", enc(|w| e.enc(w)), &[0x11u8][..], parse_ecdh_params, e.expected(), 1u8);
+            if g % 16 == 0 {
+                let sg = ASig { alg: Some((4, 3)), data: vec![g as u8; 3] };
+                let input = enc(|w| { e.enc(w); sg.enc(w) });
+                let r2 = parse_content_and_signature(&input, parse_ecdh_params, true);
+                ctx.eval();
+                if !matches!(&r2, Ok((rem, (cv, sv))) if rem.is_empty() && *cv == e.expected() && *sv == sg.expected()) {
+                    ctx.violation("c13:parse_content_and_signature:ecdh:named-group-sweep".into(), json!({"group": g, "outcome": classify(&r2).show(), "input_hex": hex_short(&input)}));
+                }
+            }
         }
     });
     ctx.mark_exhaustive("ECParameters named-curve form: all 65536 groups");
